@@ -54,6 +54,28 @@ def run(tier, argv):
     rep.notes["compact_spellings"] = semcommon.summary_of(p.stderr)
     bad += list(vlib.read_ndjson(mmg))
     tot["spellings"] += ng
+    # fillers in the gaps between the tokens of seven schemas (Gaps.tla): one gap filled in the quick tier, every pair in the thorough one
+    rawg = work.path("gaps.txt")
+    rg = vlib.tlc(work, "Gaps", "Gaps.cfg", consts={"Strength": "1" if quick else "2"}, to_file=rawg, timeout=3000, workers=1, heap="8g")
+    rep.add_tlc(rg, "Gaps: every gap (pair of gaps) of seven token lists x its fillers")
+    gcases = work.path("gaps.ndjson")
+    ngap = 0
+    with open(gcases, "w") as f:
+        for l in vlib.tagged_file(rawg, "@@CASE"):
+            f.write(l + "\n")
+            ngap += 1
+    if ngap == 0:
+        raise vlib.Infra("Gaps exported nothing")
+    gm = work.path("gaps-mism.ndjson")
+    p = vlib.run_harness(hbin, ["c13gaps", "-cases", gcases, "-out", gm], timeout=3000)
+    if p.returncode != 0:
+        raise vlib.Infra("c13gaps failed: " + p.stderr.decode()[-2000:])
+    sg = semcommon.summary_of(p.stderr)
+    rep.notes["gaps"] = sg
+    tot["spellings"] += sg["spellings"]
+    tot["validations"] += sg["evaluations"]
+    for b in vlib.read_ndjson(gm):
+        bad.append({"what": "gap filler", "house": b["base"], "spelling": b["schema"], "doc": None, "detail": b["where"]})
     rep.notes["replay"] = tot
     rep.sample({"layout_count": nl})
     rep.cov["evaluations"] = tot["spellings"] + tot["validations"]
